@@ -9,3 +9,16 @@ for c in m['checks']:
     except Exception as e:
         print('INVALID', c['evidence_file'], str(e)[:300]); sys.exit(1)
 print('manifest + %d evidence files valid'%len(m['checks']))
+
+# the harness also requires, at level "proof", coverage.discharged == coverage.obligations
+import glob as _g, json as _j, sys as _s
+_bad = 0
+for _f in sorted(_g.glob('/verif/evidence/C*.json')):
+    _e = _j.load(open(_f))
+    _c = _e.get('coverage', {})
+    if _e.get('level') == 'proof' and _c.get('discharged') != _c.get('obligations'):
+        print(_f, 'coverage.discharged', _c.get('discharged'), '!= obligations', _c.get('obligations'))
+        _bad += 1
+if _bad:
+    _s.exit(1)
+print('proof-level counts consistent')
